@@ -195,7 +195,10 @@ def erv3_http_maps_errors(ctx):
                   where(unwraps[0].term) if unwraps else (where(maps[0][1]) if maps else None))
     # map_err_response itself: every Err arm builds a non-2xx response
     M = P.one('server::map_err_response')
-    builders = sorted({norm_callee(t.func).split('::')[-1] for blk, t in M.calls()
+    # the statuses may be built in a helper / closure map_err_response delegates to
+    reach = [P.body(n) for n in P.reachable_bodies([M]) if n.startswith('server::')]
+    builders = sorted({norm_callee(t.func).split('::')[-1] for b_ in reach if b_ is not None
+                       for blk, t in b_.calls()
                        if 'HttpResponse::' in norm_callee(t.func) and not blk.cleanup})
     ctx.check('ERV-3', 'map_err_response|error-statuses', bool(builders) and 'Ok' not in builders,
               'map_err_response builds only error statuses: %s' % builders, where(M.blocks[0].term))
